@@ -6,8 +6,11 @@ import (
 	"bytes"
 	"encoding/hex"
 	"fmt"
+	"sort"
 
 	"github.com/superfly/macaroon"
+	"github.com/superfly/macaroon/flyio"
+	"github.com/superfly/macaroon/resset"
 
 	"verifharness/internal/coqw"
 	"verifharness/internal/cs"
@@ -274,6 +277,109 @@ func genC05(c *ctx) {
 		b := newBuilder(c.r.Fork())
 		b.emit(st, "honest/long-chain", true, f)
 	}
+	{
+		b := newBuilder(c.r.Fork())
+		b.emit(st, "honest/zero-valued-fields", true, zeroFieldsOracle())
+	}
+}
+
+// zeroFieldsOracle (C05, "any field values"): caveats whose fields are nil / empty (a conditional without conditions, nil
+// and empty maps and lists). The token is built twice -- by the library's Add, and by hand from the encoding of a fresh value
+// and the HMAC chain -- and both have to be the same token, accepted under the minting key, with the value handed back
+// encoding to the signed bytes; adding the same value again is collapsed.
+func zeroFieldsOracle() (fail string) {
+	what := ""
+	defer func() {
+		if p := recover(); p != nil {
+			fail = fmt.Sprintf("panic on %s: %v", what, p)
+		}
+	}()
+	makers := map[string]func() macaroon.Caveat{
+		"IfPresent{Ifs: nil}": func() macaroon.Caveat { return &resset.IfPresent{Else: resset.ActionRead} },
+		"IfPresent{Ifs: empty set}": func() macaroon.Caveat {
+			return &resset.IfPresent{Ifs: macaroon.NewCaveatSet(), Else: resset.ActionRead}
+		},
+		"IfPresent{Ifs: nil, Else 0}": func() macaroon.Caveat { return &resset.IfPresent{} },
+		"Apps{nil}":                   func() macaroon.Caveat { return &flyio.Apps{} },
+		"Apps{empty}":                 func() macaroon.Caveat { return &flyio.Apps{Apps: resset.ResourceSet[uint64, resset.Action]{}} },
+		"FeatureSet{nil}":             func() macaroon.Caveat { return &flyio.FeatureSet{} },
+		"Mutations{nil}":              func() macaroon.Caveat { return &flyio.Mutations{} },
+		"Commands{nil}":               func() macaroon.Caveat { return &flyio.Commands{} },
+		"Commands{empty}":             func() macaroon.Caveat { return &flyio.Commands{} },
+		"Clusters{nil}":               func() macaroon.Caveat { return &flyio.Clusters{} },
+		"ValidityWindow{0,0}":         func() macaroon.Caveat { return &macaroon.ValidityWindow{} },
+		"Organization{0,0}":           func() macaroon.Caveat { return &flyio.Organization{} },
+	}
+	names := make([]string, 0, len(makers))
+	for k := range makers {
+		names = append(names, k)
+	}
+	sort.Strings(names)
+	key := macaroon.NewSigningKey()
+	for _, name := range names {
+		what = "a token with the caveat " + name
+		mk := makers[name]
+		base, _ := macaroon.New([]byte("k"), "https://zero.test", key)
+		opc, err := macaroon.VerifEncode(macaroon.NewCaveatSet(mk()))
+		if err != nil {
+			continue
+		}
+		hand := *base
+		hand.UnsafeCaveats = *macaroon.NewCaveatSet(mk())
+		hand.Tail = macaroon.VerifSign(base.Tail, opc)
+		hw, err := macaroon.VerifEncode(&hand)
+		if err != nil {
+			return "setup: " + err.Error()
+		}
+		lib, _ := base.Clone()
+		if err := lib.Add(mk()); err != nil {
+			return what + ": Add refuses it: " + err.Error()
+		}
+		if err := lib.Add(mk()); err != nil {
+			return what + ": adding it again fails: " + err.Error()
+		}
+		if n := len(lib.UnsafeCaveats.Caveats); n != 1 {
+			return fmt.Sprintf("%s: adding the same value twice leaves %d caveats", what, n)
+		}
+		lw, _ := lib.Encode()
+		if !bytes.Equal(lw, hw) {
+			return fmt.Sprintf("%s: Add produces %x, the encoding of the value chained by hand is %x", what, lw, hw)
+		}
+		for _, wire := range [][]byte{hw, lw} {
+			dm, err := macaroon.Decode(wire)
+			if err != nil {
+				return what + " does not decode: " + err.Error()
+			}
+			// a holder looks at the token before presenting it
+			dm.ThirdPartyTickets()
+			macaroon.GetCaveats[*macaroon.ValidityWindow](&dm.UnsafeCaveats)
+			set, err := dm.Verify(key, nil, nil)
+			if err != nil {
+				return what + " (minted and chained honestly) is rejected: " + err.Error()
+			}
+			back, err := set.MarshalMsgpack()
+			if err != nil || !bytes.Equal(back, opc) {
+				return fmt.Sprintf("%s: verification hands back a caveat encoding to %x, signed was %x", what, back, opc)
+			}
+			// a second holder attenuates from the encoded token
+			if err := dm.Add(mk(), &macaroon.ValidityWindow{NotBefore: 1, NotAfter: 1 << 40}); err != nil {
+				return what + ": a holder cannot attenuate it: " + err.Error()
+			}
+			w2, _ := dm.Encode()
+			dm2, err := macaroon.Decode(w2)
+			if err != nil {
+				return what + " attenuated does not decode: " + err.Error()
+			}
+			set2, err := dm2.Verify(key, nil, nil)
+			if err != nil {
+				return what + ", attenuated by a holder working from the encoded token, is rejected: " + err.Error()
+			}
+			if len(set2.Caveats) != 2 {
+				return fmt.Sprintf("%s, attenuated with the same value and a window: verification yields %d caveats, not 2", what, len(set2.Caveats))
+			}
+		}
+	}
+	return ""
 }
 
 func longChainOracle(r *rng.R) string {
@@ -541,6 +647,15 @@ func genC01(c *ctx) {
 			break
 		}
 	}
+	// caveats of a type the verifier has no Go type for are signed and handed back as they are, also with an empty (nil) body:
+	// their type number cannot be rewritten on the wire
+	for i := 0; i < 14; i++ {
+		if f := unknownTypeForgeryOracle(c.r.Fork(), i); f != "" {
+			b := newBuilder(c.r.Fork())
+			b.emit(st, "forge/unknown-type-number", true, f)
+			break
+		}
+	}
 	// "independently minted tokens never share a nonce": over every token minted in this run
 	c.set.Notes["minted_nonces"] = map[string]any{"minted": sym.Mints, "distinct": len(sym.MintNonces), "violation": sym.DupNonce}
 	if sym.DupNonce != "" {
@@ -551,6 +666,72 @@ func genC01(c *ctx) {
 		b := newBuilder(c.r.Fork())
 		b.emit(st, "byte-mutate", true, fail)
 	}
+}
+
+func unknownTypeForgeryOracle(r *rng.R, i int) (fail string) {
+	defer func() {
+		if p := recover(); p != nil {
+			fail = fmt.Sprintf("panic: %v", p)
+		}
+	}()
+	key := macaroon.NewSigningKey()
+	types := []uint64{1 << 33, 1<<33 + 1, 77777, 1<<47 + 5, 200}
+	bodies := [][]byte{{0xc0}, {0xc0}, {0x90}, {0x01}, {0xa1, 'x'}, {0x80}, {0xc3}}
+	t1 := types[r.Intn(len(types))]
+	t2 := t1
+	for t2 == t1 {
+		t2 = types[r.Intn(len(types))]
+	}
+	body := bodies[i%len(bodies)]
+	m, _ := macaroon.New([]byte("k"), "https://unk.test", key)
+	var cavs []macaroon.Caveat
+	at := r.Intn(3)
+	for i := 0; i < 3; i++ {
+		if i == at {
+			cavs = append(cavs, &macaroon.UnregisteredCaveat{Type: macaroon.CaveatType(t1), RawMsgpack: body})
+		} else {
+			cavs = append(cavs, &macaroon.ValidityWindow{NotBefore: int64(i), NotAfter: 1 << 40})
+		}
+	}
+	if err := m.Add(cavs...); err != nil {
+		return "" // the type happens to be registered in this process
+	}
+	wire, err := m.Encode()
+	if err != nil {
+		return "setup: " + err.Error()
+	}
+	dm, err := macaroon.Decode(wire)
+	if err != nil {
+		return fmt.Sprintf("token with a caveat of unknown type %d and body %x does not decode: %v", t1, body, err)
+	}
+	set, err := dm.Verify(key, nil, nil)
+	if err != nil {
+		return fmt.Sprintf("genuine token with a caveat of unknown type %d and body %x is rejected: %v", t1, body, err)
+	}
+	if len(set.Caveats) != 3 {
+		return fmt.Sprintf("verification of a 3-caveat token returns %d caveats", len(set.Caveats))
+	}
+	uc, ok := set.Caveats[at].(*macaroon.UnregisteredCaveat)
+	if !ok || uint64(uc.Type) != t1 || !bytes.Equal(uc.RawMsgpack, body) {
+		return fmt.Sprintf("verification hands back %T %+v for the caveat of unknown type %d with body %x", set.Caveats[at], set.Caveats[at], t1, body)
+	}
+	forged := *dm
+	fc := append([]macaroon.Caveat{}, cavs...)
+	fc[at] = &macaroon.UnregisteredCaveat{Type: macaroon.CaveatType(t2), RawMsgpack: body}
+	forged.UnsafeCaveats = *macaroon.NewCaveatSet(fc...)
+	forged.Tail = append([]byte{}, m.Tail...)
+	fw, err := macaroon.VerifEncode(&forged)
+	if err != nil {
+		return ""
+	}
+	fm, err := macaroon.Decode(fw)
+	if err != nil {
+		return ""
+	}
+	if _, err := fm.Verify(key, nil, nil); err == nil {
+		return fmt.Sprintf("a token whose caveat type number was rewritten on the wire from %d to %d (body %x, same tail) is accepted", t1, t2, body)
+	}
+	return ""
 }
 
 // ---------------------------------------------------------------- C02: attenuation only restricts
@@ -765,6 +946,89 @@ func genC04(c *ctx) {
 		b := newBuilder(c.r.Fork())
 		b.emit(st, "seal-nonce-reuse", true, sym.DupSeal)
 	}
+	emitCacheDischarge(c, st)
+	{
+		b := newBuilder(c.r.Fork())
+		b.emit(st, "3p/truncated-sealed-values", true, truncatedSealOracle(c.r.Fork()))
+	}
+}
+
+// truncatedSealOracle (C04, "tampered with ... never satisfies it"): third-party caveats whose sealed values (ticket,
+// verifier key) were cut to every length from 0 up: verification answers with an error, the ticket is refused by the third
+// party, and nothing panics
+func truncatedSealOracle(r *rng.R) (fail string) {
+	what := ""
+	defer func() {
+		if p := recover(); p != nil {
+			fail = fmt.Sprintf("panic on %s: %v", what, p)
+		}
+	}()
+	key, ka := macaroon.NewSigningKey(), macaroon.NewEncryptionKey()
+	m, _ := macaroon.New([]byte("k"), "https://perm.trunc.test", key)
+	if err := m.Add3P(ka, "https://tp.trunc.test"); err != nil {
+		return "setup: " + err.Error()
+	}
+	ticket, _ := m.ThirdPartyTicket("https://tp.trunc.test")
+	_, dm, err := macaroon.DischargeTicket(ka, "https://tp.trunc.test", ticket)
+	if err != nil {
+		return "setup: " + err.Error()
+	}
+	c3 := m.UnsafeCaveats.Caveats[0].(*macaroon.Caveat3P)
+	for n := 0; n <= 44; n++ {
+		for _, field := range []string{"verifier key", "ticket"} {
+			what = fmt.Sprintf("a third-party caveat whose %s is cut to %d bytes", field, n)
+			cut := *c3
+			src := c3.VerifierKey
+			if field == "ticket" {
+				src = c3.Ticket
+			}
+			if n >= len(src) {
+				continue
+			}
+			if field == "ticket" {
+				cut.Ticket = append([]byte{}, src[:n]...)
+				if _, _, err := macaroon.DischargeTicket(ka, "https://tp.trunc.test", cut.Ticket); err == nil {
+					return "the third party opens " + what
+				}
+			} else {
+				cut.VerifierKey = append([]byte{}, src[:n]...)
+			}
+			forged := *m
+			forged.UnsafeCaveats = *macaroon.NewCaveatSet(&cut)
+			forged.Tail = append([]byte{}, m.Tail...)
+			fw, err := macaroon.VerifEncode(&forged)
+			if err != nil {
+				continue
+			}
+			fm, err := macaroon.Decode(fw)
+			if err != nil {
+				continue
+			}
+			d := *dm
+			if field == "ticket" {
+				// a discharge whose key-id is the cut ticket, so that it is looked up and its verifier key unsealed
+				d.Nonce.KID = cut.Ticket
+			}
+			if _, err := fm.VerifyParsed(key, []*macaroon.Macaroon{&d}, nil); err == nil {
+				return "accepted: " + what
+			}
+		}
+	}
+	return ""
+}
+
+// the C04/C06/C07 claims have to hold for a verifier that caches, too: see cacheDischargeOracle
+func emitCacheDischarge(c *ctx, st *cs.Stream) {
+	n := 12
+	if c.thorough {
+		n = 200
+	}
+	f := ""
+	for i := 0; i < n && f == ""; i++ {
+		f = cacheDischargeOracle(c.r.Fork())
+	}
+	b := newBuilder(c.r.Fork())
+	b.emit(st, "discharges/through-verification-cache", true, f)
 }
 
 // ---------------------------------------------------------------- C06: binding
@@ -930,6 +1194,7 @@ func genC06(c *ctx) {
 		b := newBuilder(c.r.Fork())
 		b.emit(st, "binding-id", true, sym.TicketHelperFail)
 	}
+	emitCacheDischarge(c, st)
 }
 
 // ---------------------------------------------------------------- C07: attestations
@@ -1096,6 +1361,7 @@ func genC07(c *ctx) {
 		b.do(sym.Op{Kind: "OVerify", S: tok, K: keyRoot, Slots: dis, Tr: []sym.Trust{{Loc: 1, Keys: []uint64{keyTP1}}}})
 		b.emit(st, "att/"+class, true, "")
 	}
+	emitCacheDischarge(c, st)
 }
 
 // ---------------------------------------------------------------- C08: proofs are final
